@@ -799,6 +799,112 @@ fn gen_event(rng: &mut Rng, k: &Contract, g: &GenCfg) -> Option<Ev> {
     None
 }
 
+/// Scripted openings of the limits-focused stream ("crowd" shapes): a peer is given two connections,
+/// then a further connection for the same peer finishes negotiating while the global count is still
+/// below the limit (refused by the per-peer rule, not by the limit), then other peers arrive until
+/// the limit should be reached. A slot reserved for the refused connection would show up as a
+/// counted id without an established connection, and as a refusal below the limit.
+#[derive(Clone, Copy)]
+enum Intent {
+    /// a transport draws an id for an inbound socket
+    Alloc,
+    /// the most recently drawn id is established as an inbound connection of this peer
+    EstIn(usize),
+    /// ... or announced as a pending inbound connection
+    PendIn,
+    /// every pending accept future resolves
+    AcceptAll,
+    /// add an address of the peer and dial it by address
+    AddAddr(usize),
+    DialAddr(usize),
+    /// the dial owed for this peer is established
+    EstOut(usize),
+}
+
+fn crowd_script(rng: &mut Rng) -> Vec<Intent> {
+    use Intent::*;
+    let a = 1usize;
+    let mut v = Vec::new();
+    let inbound = |v: &mut Vec<Intent>, p: usize| {
+        v.push(Alloc);
+        v.push(EstIn(p));
+        v.push(AcceptAll);
+    };
+    let outbound = |v: &mut Vec<Intent>, p: usize| {
+        v.push(AddAddr(p));
+        v.push(DialAddr(p));
+        v.push(EstOut(p));
+        v.push(AcceptAll);
+    };
+    match rng.below(4) {
+        0 => {
+            // two inbound connections, a third inbound one
+            inbound(&mut v, a);
+            inbound(&mut v, a);
+            inbound(&mut v, a);
+        }
+        1 => {
+            // outbound primary, inbound secondary, a third inbound one
+            outbound(&mut v, a);
+            inbound(&mut v, a);
+            inbound(&mut v, a);
+        }
+        2 => {
+            // a dial in flight, an inbound connection, a second inbound one (refused: the free slot is
+            // reserved for the dial), then the dial is established as the secondary connection
+            v.push(AddAddr(a));
+            v.push(DialAddr(a));
+            inbound(&mut v, a);
+            inbound(&mut v, a);
+            v.push(EstOut(a));
+            v.push(AcceptAll);
+        }
+        _ => {
+            // inbound primary, outbound secondary, a third inbound one, and one more
+            inbound(&mut v, a);
+            v.push(Alloc);
+            v.push(EstIn(a));
+            v.push(AcceptAll);
+            inbound(&mut v, a);
+            inbound(&mut v, a);
+        }
+    }
+    // other peers until the limits should be reached (and beyond): inbound, pending-inbound, outbound
+    for p in [2usize, 3, 4, 2, 3] {
+        match rng.below(4) {
+            0 => outbound(&mut v, p),
+            1 => {
+                v.push(Alloc);
+                v.push(PendIn);
+                v.push(EstIn(p));
+                v.push(AcceptAll);
+            }
+            _ => inbound(&mut v, p),
+        }
+    }
+    v
+}
+
+fn realize(i: Intent, k: &Contract, rng: &mut Rng, inst: u64) -> Vec<Ev> {
+    let ts: Vec<usize> = (0..NTR).filter(|t| inst & (1 << t) != 0).collect();
+    let t = ts[rng.below(ts.len() as u64) as usize];
+    match i {
+        Intent::Alloc => vec![Ev::AllocConn],
+        Intent::EstIn(p) => k.allocated.last().map(|c| Ev::TrEstablished(p, *c, t, true, false)).into_iter().collect(),
+        Intent::PendIn => k.allocated.last().map(|c| Ev::TrPendingInbound(*c, t)).into_iter().collect(),
+        Intent::AcceptAll => k.owed_acc.iter().map(|(c, _, _)| Ev::AcceptDone(*c, true)).collect(),
+        Intent::AddAddr(p) => vec![Ev::AddAddr(p, t)],
+        Intent::DialAddr(p) => vec![Ev::DialAddr(p, t, false)],
+        Intent::EstOut(p) => k
+            .owed_neg
+            .iter()
+            .find(|(_, q, _)| *q == p)
+            .map(|(c, q, u)| Ev::TrEstablished(*q, *c, *u, false, false))
+            .into_iter()
+            .collect(),
+    }
+}
+
 fn run_generated(rt: &Runtime, rng: &mut Rng, thorough: bool, focus_limits: bool) -> (Vec<u64>, Vec<u64>) {
     let lim = |rng: &mut Rng| -> u64 {
         if focus_limits {
@@ -809,7 +915,18 @@ fn run_generated(rt: &Runtime, rng: &mut Rng, thorough: bool, focus_limits: bool
             rng.pick(&[0u64, 0, 0, 1, 2, 2, 3, 4])
         }
     };
-    let (max_in, max_out) = (lim(rng), lim(rng));
+    let (mut max_in, mut max_out) = (lim(rng), lim(rng));
+    // a third of the limits-focused cases open with a crowd shape under limits of 3..5
+    let mut script: std::collections::VecDeque<Intent> = std::collections::VecDeque::new();
+    let mut queued: std::collections::VecDeque<Ev> = std::collections::VecDeque::new();
+    if focus_limits && rng.chance(33) {
+        max_in = rng.pick(&[4u64, 4, 5, 6, 0]);
+        max_out = rng.pick(&[4u64, 4, 5, 6, 0]);
+        if max_in == 0 && max_out == 0 {
+            max_in = 4;
+        }
+        script = crowd_script(rng).into();
+    }
     // both transports installed in most cases; TCP only / WebSocket only in the others
     let inst = rng.pick(&[3u64, 3, 3, 3, 3, 3, 3, 1, 1, 2]);
     let noisy = rng.chance(15);
@@ -828,7 +945,17 @@ fn run_generated(rt: &Runtime, rng: &mut Rng, thorough: bool, focus_limits: bool
         if steps > 400 {
             break;
         }
-        let mut ev = if !phase_settle {
+        if queued.is_empty() {
+            if let Some(i) = script.pop_front() {
+                queued = realize(i, &k, rng, inst).into();
+                if queued.is_empty() {
+                    continue;
+                }
+            }
+        }
+        let mut ev = if let Some(e) = queued.pop_front() {
+            e
+        } else if !phase_settle {
             if count >= n {
                 phase_settle = true;
                 continue;
